@@ -207,6 +207,7 @@ impl<const N: usize> Exec<N> {
         let (m, fam, poisoned) = (si.m.clone(), si.family, si.poisoned);
         let (readd, merged, src_next) = (si.readd_seen, si.merged, si.next_v);
         let (cl, log) = (si.crossed_load, si.oplog.clone());
+        let (sl, sc) = (si.suspect_load, si.suspect_clone);
         self.new_inst(dst, c, m, Origin::Cloned, fam)?;
         {
             let di = self.view.insts[dst].as_mut().unwrap();
@@ -215,6 +216,8 @@ impl<const N: usize> Exec<N> {
             di.merged = merged;
             di.crossed_load = cl;
             di.crossed_clone = true;
+            di.suspect_load = sl;
+            di.suspect_clone = sc;
             di.oplog = log;
         }
         self.stats.bump("probe.clone_made");
@@ -232,6 +235,16 @@ impl<const N: usize> Exec<N> {
             return fail("clone.sweep-differs", owners, format!("right after clone(): {d}"));
         }
         self.refresh_hints(dst);
+        {
+            // exculpation only: a copy whose complete internal state equals the original's cannot
+            // be the reason for a later divergence
+            let a = guarded(|| self.gs[src].as_ref().unwrap().verif_snapshot()).ok();
+            let b = guarded(|| self.gs[dst].as_ref().unwrap().verif_snapshot()).ok();
+            if a.is_none() || a != b {
+                self.view.insts[dst].as_mut().unwrap().suspect_clone = true;
+                self.stats.bump("probe.clone_snapshot_differs");
+            }
+        }
         if self.view.insts[dst].as_ref().unwrap().next_v != src_next {
             // representation, not behaviour: steer only (the lockstep next_id comparison decides)
             self.stats.bump("probe.clone_allocator_position_differs");
@@ -320,6 +333,9 @@ impl<const N: usize> Exec<N> {
                 crossed_clone: inst.crossed_clone,
                 merged: inst.merged,
                 readd_seen: inst.readd_seen,
+                suspect_load: inst.suspect_load,
+                suspect_clone: inst.suspect_clone,
+                snap: guarded(|| self.gs[i].as_ref().unwrap().verif_snapshot()).ok(),
             })
         });
         let acked = matches!(r, Ok(Ok(_))) && !fired;
@@ -467,6 +483,8 @@ impl<const N: usize> Exec<N> {
                     merged: false,
                     crossed_load: true,
                     crossed_clone: false,
+                    suspect_load: true,
+                    suspect_clone: false,
                     oplog: Vec::new(),
                 });
                 self.stats.bump("damaged.loaded_ok");
@@ -539,6 +557,19 @@ impl<const N: usize> Exec<N> {
                     let di = self.view.insts[dst].as_mut().unwrap();
                     di.crossed_load = true;
                     di.crossed_clone = st.crossed_clone;
+                    di.suspect_clone = st.suspect_clone;
+                    let now = guarded(|| self.gs[dst].as_ref().unwrap().verif_snapshot()).ok();
+                    let same = match (&st.snap, &now) {
+                        (Some(a), Some(b)) => {
+                            a.cap == b.cap && a.slots == b.slots && a.members == b.members && a.counters == b.counters
+                        }
+                        _ => false,
+                    };
+                    if !same {
+                        self.stats.bump("probe.load_snapshot_differs");
+                    }
+                    let di = self.view.insts[dst].as_mut().unwrap();
+                    di.suspect_load = st.suspect_load || !same;
                     di.merged = st.merged;
                     di.readd_seen = st.readd_seen;
                     di.oplog = st.oplog.clone();
